@@ -121,7 +121,10 @@ def _scores_model(case, obs):
 
 
 def run_case(case):
-    got = call_impl(brewlib.run_brew, case)
+    return compare(case, call_impl(brewlib.run_brew, case))
+
+
+def compare(case, got):
     if got[0] == "err":
         return ("unknown", "read_pin failed"), ("err", got[1])
     obs = got[1]
